@@ -83,7 +83,8 @@ Lemma on_frame_begin_data cf (s : rstate) f v :
     let '(s1, e) := on_frame_begin D cd cf s f in (r_data D s1 v, e).
 Proof.
   unfold on_frame_begin. destruct (fb_is_ctl (f_op f)); [reflexivity|].
-  cbn [ms cn r_data]. destruct (on_message_frame_begin D cf _ _ _) as [[c1 m2] e]. reflexivity.
+  cbn [ms cn r_data]. destruct (failed (cn D s)); [reflexivity|].
+  destruct (on_message_frame_begin D cf _ _ _) as [[c1 m2] e]. reflexivity.
 Qed.
 
 Lemma on_frame_data_data cf (s : rstate) f p v :
@@ -491,7 +492,8 @@ Proof.
   assert (Hcur : cur D s4 = Some f /\ mptr D s4 = 0 /\ data D s4 = drop hl (data D s)).
   { revert Eb. unfold on_frame_begin. destruct (fb_is_ctl (f_op f)).
     - intros E; inversion E; subst; cbn; auto.
-    - destruct (on_message_frame_begin D cf _ _ _) as [[c1 m2] e]. intros E; inversion E; subst; cbn; auto. }
+    - destruct (failed (cn D s3)); [intros E; inversion E; subst; cbn; auto|].
+      destruct (on_message_frame_begin D cf _ _ _) as [[c1 m2] e]. intros E; inversion E; subst; cbn; auto. }
   destruct Hcur as [Hc1 [Hc2 Hc3]].
   assert (HW : W2 (ms D s) -> Wf s4).
   { intros Hw. split.
@@ -536,9 +538,11 @@ Lemma on_frame_end_data_frame (s : rstate) f : fe_is_ctl (f_op f) = false -> W2 
   (c3 = Cont -> cur D s3 = None /\ W2 (ms D s3) /\ data D s3 = data D s).
 Proof.
   intros Hc H. unfold on_frame_end. rewrite Hc.
-  assert (G : forall m0 : mstate, W2 m0 -> forall a b, W2 (m_inside D (m_mdata D (if zon D m0 then m_dec D m0 a else m0) []) b)).
-  { intros m0 H0 a b. unfold W2 in *. destruct (zon D m0); cbn; exact H0. }
-  assert (G1 : W2 (m_fdata D (if failed (cn D s) then ms D s else m_mdata D (ms D s) (mdata D (ms D s) ++ fdata D (ms D s))) [])).
+  assert (G : forall m0 : mstate, W2 m0 -> forall a b (x : bool),
+              W2 (m_inside D (if x then (if zon D m0 then m_dec D m0 a else m0)
+                              else m_mdata D (if zon D m0 then m_dec D m0 a else m0) []) b)).
+  { intros m0 H0 a b x. unfold W2 in *. destruct x, (zon D m0); cbn; exact H0. }
+  assert (G1 : W2 (if failed (cn D s) then ms D s else m_fdata D (m_mdata D (ms D s) (mdata D (ms D s) ++ fdata D (ms D s))) [])).
   { unfold W2 in *. destruct (failed (cn D s)); cbn; exact H. }
   destruct (f_fin f).
   - match goal with |- context [if ?b then invalid_payload cf ?c else _] => destruct b end.
@@ -546,7 +550,7 @@ Proof.
       destruct I as [-> I]. split; [discriminate|]. split; [intros _; exact I|discriminate].
     + split; [discriminate|]. split; [discriminate|]. intros _. cbn [cur r_cur r_ms r_cn ms data].
       split; [reflexivity|]. split; [|reflexivity].
-      match goal with |- W2 (m_inside D (m_mdata D (if zon D ?m0 then m_dec D ?m0 ?a else ?m0) []) ?b) => apply (G m0 G1 a b) end.
+      match goal with |- W2 (m_inside D (if ?x then (if zon D ?m0 then m_dec D ?m0 ?a else ?m0) else _) ?b) => apply (G m0 G1 a b x) end.
   - split; [discriminate|]. split; [discriminate|]. intros _. cbn. split; [reflexivity|]. split; [exact G1|reflexivity].
 Qed.
 
